@@ -19,7 +19,19 @@ def build_evse(sid, e):
         return EVSE(sid, max_rate=e["max"], min_rate=e.get("min", 0))
     if e["t"] == "DB":
         return DeadbandEVSE(sid, deadband_end=e["end"], max_rate=e["max"])
-    return FiniteRatesEVSE(sid, list(e["rates"]))
+    rates = list(e["rates"])
+    form = e.get("form", "list")
+    if form == "generator":
+        rates = (r for r in rates)
+    elif form == "map":
+        rates = map(float, rates)
+    elif form == "iter":
+        rates = iter(rates)
+    elif form == "tuple":
+        rates = tuple(rates)
+    elif form == "array":
+        rates = np.array(rates, dtype=float)
+    return FiniteRatesEVSE(sid, rates)
 
 
 LAST_EVSES = {}  # station id -> EVSE object of the most recently built network (harness-side handle)
@@ -59,11 +71,14 @@ def build_ev(s, shift=0):
               build_battery(s["battery"]), estimated_departure=s.get("est_dep", s["departure"]) + shift)
 
 
-def build_events(desc, shift=0, session_order=None):
+def build_events(desc, shift=0, session_order=None, queue=None):
     from acnportal.acnsim.events import EventQueue, PluginEvent, RecomputeEvent
     sessions = desc["sessions"] if session_order is None else [desc["sessions"][i] for i in session_order]
     evs = [build_ev(s, shift) for s in sessions]
     events = [PluginEvent(e.arrival, e) for e in evs] + [RecomputeEvent(t + shift) for t in desc.get("recompute", [])]
+    if queue is not None:  # an existing (e.g. drained) queue object is refilled and used again
+        queue.add_events(events)
+        return queue, evs
     return EventQueue(events), evs
 
 
@@ -106,6 +121,17 @@ def make_scripted_class():
             if self.hook is not None:
                 self.hook(self, t, active_sessions)
             sch, plain = gen.scripted_schedule(self.sd, self.net, t)
+            if self.sd.get("buffered") and plain:
+                # a scheduler that keeps ONE pre-allocated mapping of numpy rows and overwrites the rows in place each period
+                buf = getattr(self, "_buf", None)
+                L = len(next(iter(plain.values())))
+                if buf is None or set(buf) != set(plain) or len(next(iter(buf.values()))) != L:
+                    buf = self._buf = {k: np.array(v, dtype=float) for k, v in plain.items()}
+                else:
+                    for k, v in plain.items():
+                        buf[k][:] = v
+                self.submitted.append((t, {k: list(v) for k, v in plain.items()}))
+                return buf
             if self.typed and plain:
                 sch = gen.typed_schedule(plain, random.Random(f"{self.sd['seed']}:{t}:types"), np)
             self.submitted.append((t, {k: list(v) for k, v in plain.items()}))
@@ -158,11 +184,11 @@ def build_scheduler(desc, sort_wrapper=None):
 
 
 def build_sim(desc, scheduler=None, network=None, shift=0, order=None, cons_order=None,
-              session_order=None, net_cls=None, net_kw=None, **simkw):
+              session_order=None, net_cls=None, net_kw=None, queue=None, **simkw):
     from acnportal.acnsim import Simulator
     net = network or build_network(desc["network"], cls=net_cls, order=order, cons_order=cons_order,
                                    **(net_kw or {}))
-    q, evs = build_events(desc, shift=shift, session_order=session_order)
+    q, evs = build_events(desc, shift=shift, session_order=session_order, queue=queue)
     sch = scheduler if scheduler is not None else build_scheduler(desc)
     if getattr(sch, "sd", None) is not None and shift:
         sch.sd = dict(sch.sd, t0=sch.sd.get("t0", 0) + shift)
